@@ -305,7 +305,11 @@ class HidPatch:
         self._saved = None
 
     def _enumerate(self, vid=0, pid=0):
-        if self.bus.enumerate_fail > 0:
+        # enumerate_skip: let that many enumerations succeed first (so that e.g. the second
+        # connection attempt inside one bring-up is the one that finds no device)
+        if getattr(self.bus, "enumerate_skip", 0) > 0 and self.bus.enumerate_fail > 0:
+            self.bus.enumerate_skip -= 1
+        elif self.bus.enumerate_fail > 0:
             self.bus.enumerate_fail -= 1
             self.bus.log("enumerate", found=False)
             return []
